@@ -1,5 +1,209 @@
-import Cppcheck.Model.CondExpr
-import Cppcheck.Model.CondOpposite
-import Cppcheck.Model.CondTypeRange
+import Cppcheck.Proofs.CondOpposite
+import Cppcheck.Proofs.CondTypeRange
+/-
+C03 — always-true / always-false verdicts are true: the property theorems.
+
+Model: Model/CondExpr.lean (condition language, C17 semantics on LP64, `none` = undefined behaviour),
+Model/CondOpposite.lean (`isSame` = isSameExpression, `isOpp` = isOppositeCond, lib/astutils.cpp),
+Model/CondTypeRange.lean (`outOfRange` = checkCompareValueOutOfTypeRange, `bitCmpVerdict` = comparison(), lib/checkcondition.cpp).
+
+All theorems quantify over every expression of the language (structural / fuel induction), every semantics record `S`
+(types of the variables, type and value of the number tokens) and every environment; an evaluation that runs into
+undefined behaviour has no value and is not constrained.  Hypotheses are decidable predicates on the inputs:
+  annOK S e    the annotations cppcheck attached (value types, Known values) agree with the semantics `S`
+  eqNeSafe e   excludes the inputs of finding F03a (`==|!=` with a Known operand other than 0/1 against a bool expression)
+  cmpSafe S e  excludes the inputs of finding F03b (a comparison with a Known operand whose usual arithmetic conversions
+               change an operand's value: signed value converted to unsigned)
+  S.lval "0" = 0
+-/
 namespace Cppcheck.CondExpr
+
+/-! ### isSameExpression -/
+
+/-- `isSameExpression` is sound: two expressions it identifies have the same truth value in every environment in which
+    both are evaluated without undefined behaviour; in operand position (parent is an arithmetic / bitwise / comparison
+    operator) they have the same value and the same type. -/
+theorem same_sound (S : Sem) (cpp : Bool) (c1 c2 : Ctx) (e1 e2 : Expr)
+    (h : isSame cpp c1 e1 c2 e2 = true)
+    (a1 : annOK S e1 = true) (a2 : annOK S e2 = true) (s1 : eqNeSafe e1 = true) (s2 : eqNeSafe e2 = true) :
+    ∀ ρ v1 v2, eval S ρ e1 = some v1 → eval S ρ e2 = some v2 →
+      (v1 ≠ 0 ↔ v2 ≠ 0) ∧ (c1 = .cop → c2 = .cop → v1 = v2 ∧ tyOf S e1 = tyOf S e2) := by
+  intro ρ v1 v2 h1 h2
+  have hs := isSame_sound (S := S) (ρ := ρ) h ⟨a1, s1⟩ ⟨a2, s2⟩ h1 h2
+  refine ⟨hs.truthy, ?_⟩
+  rintro rfl rfl
+  exact Sim.cop a1 a2 h1 h2 hs
+
+/-- the precise relation: equal value and type, or both occurrences "used as bool" and equal truth value -/
+theorem same_sound_sim (S : Sem) (cpp : Bool) (c1 c2 : Ctx) (e1 e2 : Expr)
+    (h : isSame cpp c1 e1 c2 e2 = true)
+    (a1 : annOK S e1 = true) (a2 : annOK S e2 = true) (s1 : eqNeSafe e1 = true) (s2 : eqNeSafe e2 = true) :
+    ∀ ρ v1 v2, eval S ρ e1 = some v1 → eval S ρ e2 = some v2 → Sim S c1 e1 v1 c2 e2 v2 :=
+  fun _ _ _ h1 h2 => isSame_sound h ⟨a1, s1⟩ ⟨a2, s2⟩ h1 h2
+
+/-! concrete expressions for the examples and counterexamples -/
+
+def litAnn (col : Nat) (vt : VT) (v : Int) : Ann :=
+  { col := col, vt := some vt, known := some v, first := some v, front := some v, num := some v }
+def varAnn (col : Nat) (vt : VT) : Ann := { col := col, vt := some vt }
+def opAnn (col : Nat) (vt : VT) : Ann := { col := col, vt := some vt }
+def vtInt : VT := ⟨.signed, 3⟩
+def vtUInt : VT := ⟨.unsigned, 3⟩
+def vtULong : VT := ⟨.unsigned, 4⟩
+def vtBool : VT := ⟨.unknown, 0⟩
+
+/-- `int a, b;` and the number tokens `0 1 2 3 5U 5000000000UL` -/
+def exS : Sem :=
+  { vty := fun _ => tInt
+    lty := fun sp => if sp = "5U".toList then tUInt else if sp = "5000000000UL".toList then ⟨.long, false⟩ else tInt
+    lval := fun sp =>
+      if sp = "1".toList then 1 else if sp = "2".toList then 2 else if sp = "3".toList then 3
+      else if sp = "5U".toList then 5 else if sp = "5".toList then 5 else if sp = "5000000000UL".toList then 5000000000 else 0 }
+
+def exA : Expr := .var (varAnn 1 vtInt) 1
+def exB : Expr := .var (varAnn 2 vtInt) 2
+def exLt : Expr := .bin (opAnn 3 vtBool) .lt exA exB          -- a < b
+def exGe : Expr := .bin (opAnn 3 vtBool) .ge exA exB          -- a >= b
+def exNe2 : Expr := .bin (opAnn 4 vtBool) .ne exLt (.lit (litAnn 5 vtInt 2) "2".toList)   -- (a < b) != 2
+def exNot : Expr := .un (opAnn 6 vtBool) .lnot exLt           -- !(a < b)
+def exLt3 : Expr := .bin (opAnn 3 vtBool) .lt exA (.lit (litAnn 4 vtInt 3) "3".toList)    -- a < 3
+def exGt5 : Expr := .bin (opAnn 3 vtBool) .gt exA (.lit (litAnn 4 vtInt 5) "5".toList)    -- a > 5
+def exGt5U : Expr := .bin (opAnn 3 vtBool) .gt exA (.lit (litAnn 4 vtUInt 5) "5U".toList) -- a > 5U
+def exLtBig : Expr := .bin (opAnn 3 vtBool) .lt exA (.lit (litAnn 4 vtULong 5000000000) "5000000000UL".toList)  -- a < 5000000000UL
+
+/-- the hypotheses of `same_sound` are satisfiable with a positive answer: `a < b` against `!!(a < b)` -/
+example : isSame false .cond exLt .cond (.un (opAnn 7 vtBool) .lnot exNot) = true ∧
+    annOK exS exLt = true ∧ annOK exS (.un (opAnn 7 vtBool) .lnot exNot) = true ∧
+    eqNeSafe exLt = true ∧ eqNeSafe (.un (opAnn 7 vtBool) .lnot exNot) = true := by decide
+
+/-- Finding F03a: without `eqNeSafe` the statement is false of the code's rule — `(a < b) != 2` is "the same
+    expression" as `!(a < b)` for isSameExpression (astutils.cpp:1701: any Known value other than 0 is treated like 1),
+    but for a = 1, b = 2 the first is true and the second false. -/
+theorem same_sound_counterexample :
+    ¬ ∀ (S : Sem) (e1 e2 : Expr), isSame false .cond e1 .cond e2 = true → annOK S e1 = true → annOK S e2 = true →
+        ∀ ρ v1 v2, eval S ρ e1 = some v1 → eval S ρ e2 = some v2 → (v1 ≠ 0 ↔ v2 ≠ 0) := by
+  intro h
+  have := h exS exNe2 exNot (by decide) (by decide) (by decide) (fun x => if x = 1 then 1 else 2) 1 0 (by decide) (by decide)
+  simp at this
+
+/-! ### isOppositeCond -/
+
+/-- `isOppositeCond(isNot = false, …)` is sound: the two conditions are never both true. -/
+theorem opposite_sound (S : Sem) (cpp : Bool) (c1 c2 : Ctx) (e1 e2 : Expr) (hz : S.lval ['0'] = 0)
+    (h : isOpp cpp false c1 e1 c2 e2 = true)
+    (a1 : annOK S e1 = true) (a2 : annOK S e2 = true) (s1 : eqNeSafe e1 = true) (s2 : eqNeSafe e2 = true)
+    (m1 : cmpSafe S e1 = true) (m2 : cmpSafe S e2 = true) :
+    ∀ ρ v1 v2, eval S ρ e1 = some v1 → eval S ρ e2 = some v2 → ¬(v1 ≠ 0 ∧ v2 ≠ 0) := by
+  intro ρ v1 v2 h1 h2
+  have := isOppF_sound S cpp ρ hz false _ c1 e1 c2 e2 ⟨⟨a1, s1⟩, fun _ => m1⟩ ⟨⟨a2, s2⟩, fun _ => m2⟩ h v1 v2 h1 h2
+  simpa [Opp] using this
+
+/-- `isOppositeCond(isNot = true, …)` is sound: exactly one of the two conditions is true (no `cmpSafe` needed: the
+    Known-value rules are not used with `isNot`). -/
+theorem opposite_not_sound (S : Sem) (cpp : Bool) (c1 c2 : Ctx) (e1 e2 : Expr) (hz : S.lval ['0'] = 0)
+    (h : isOpp cpp true c1 e1 c2 e2 = true)
+    (a1 : annOK S e1 = true) (a2 : annOK S e2 = true) (s1 : eqNeSafe e1 = true) (s2 : eqNeSafe e2 = true) :
+    ∀ ρ v1 v2, eval S ρ e1 = some v1 → eval S ρ e2 = some v2 → (v1 ≠ 0 ↔ ¬ v2 ≠ 0) := by
+  intro ρ v1 v2 h1 h2
+  have := isOppF_sound S cpp ρ hz true _ c1 e1 c2 e2 ⟨⟨a1, s1⟩, fun q => by simp at q⟩ ⟨⟨a2, s2⟩, fun q => by simp at q⟩
+    h v1 v2 h1 h2
+  simpa [Opp] using this
+
+/-- hypotheses satisfiable with a positive answer: `a < b` / `a >= b` (strictly opposite), `a < 3` / `a > 5` (Known rule) -/
+example : isOpp false true .cond exLt .cond exGe = true ∧ annOK exS exLt = true ∧ annOK exS exGe = true ∧
+    eqNeSafe exLt = true ∧ eqNeSafe exGe = true ∧ exS.lval ['0'] = 0 := by decide
+example : isOpp false false .cond exLt3 .cond exGt5 = true ∧ annOK exS exLt3 = true ∧ annOK exS exGt5 = true ∧
+    cmpSafe exS exLt3 = true ∧ cmpSafe exS exGt5 = true ∧ eqNeSafe exLt3 = true ∧ eqNeSafe exGt5 = true := by decide
+
+/-- Finding F03b: without `cmpSafe` the statement is false of the code's rule — `a < 3` and `a > 5U` (int a) are
+    "opposite" for isOppositeCond (astutils.cpp:2004 compares the two Known values 3 < 5 and ignores that the second
+    comparison is done in `unsigned int`); for a = -1 both are true. -/
+theorem opposite_sound_counterexample :
+    ¬ ∀ (S : Sem) (e1 e2 : Expr), S.lval ['0'] = 0 → isOpp false false .cond e1 .cond e2 = true →
+        annOK S e1 = true → annOK S e2 = true → eqNeSafe e1 = true → eqNeSafe e2 = true →
+        ∀ ρ v1 v2, eval S ρ e1 = some v1 → eval S ρ e2 = some v2 → ¬(v1 ≠ 0 ∧ v2 ≠ 0) := by
+  intro h
+  have := h exS exLt3 exGt5U (by decide) (by decide) (by decide) (by decide) (by decide) (by decide)
+    (fun _ => -1) 1 1 (by decide) (by decide)
+  simp at this
+
+/-! ### checkCompareValueOutOfTypeRange -/
+
+/-- the verdict table is right for every value in the interval computed for the other operand -/
+theorem outOfTypeRange_table_sound (op : BinOp) (i : Nat) (k lo hi : Int) (b : Bool)
+    (h : rangeVerdict op i k lo hi = some b) (hlo : lo ≤ 0) (hhi : 0 ≤ hi) :
+    ∀ x, lo ≤ x → x ≤ hi → (if i = 0 then cmpZ op k x else cmpZ op x k) = b :=
+  fun x h1 h2 => rangeVerdict_sound h hlo hhi x h1 h2
+
+/-- the interval computed from the value type contains every value of the C type with that value type -/
+theorem outOfTypeRange_interval_sound (tvt : VT) (vvt : Option VT) (lo hi : Int) (h : typeInterval tvt vvt = some (lo, hi)) :
+    ∀ t : Ty, toVT t = tvt → ∀ x, inRange t x → lo ≤ x ∧ x ≤ hi :=
+  (typeInterval_covers h).2.2.2
+
+/-- "Comparing expression of type T against value k. Condition is always b" is true of every evaluation of the
+    comparison, when the comparison is exact (`cmpSafe`). -/
+theorem outOfTypeRange_sound (S : Sem) (a : Ann) (op : BinOp) (l r : Expr) (b : Bool)
+    (hc : op.isCmp = true) (g : annOK S (.bin a op l r) = true) (hs : cmpSafe S (.bin a op l r) = true)
+    (hvl : vtOK S l = true) (hvr : vtOK S r = true)
+    (h : outOfRange op 0 l r = some b ∨ outOfRange op 1 r l = some b) :
+    ∀ ρ v, eval S ρ (.bin a op l r) = some v → v = b2i b :=
+  fun _ _ he => outOfRange_sound hc g hs hvl hvr h he
+
+/-- hypotheses satisfiable with a verdict: `a < 5000000000L`-like is covered; here `(a < b) != 2` (bool against 2) -/
+example : outOfRange .ne 1 (.lit (litAnn 5 vtInt 2) "2".toList) exLt = some true ∧ annOK exS exNe2 = true ∧
+    cmpSafe exS exNe2 = true ∧ vtOK exS exLt = true ∧ vtOK exS (.lit (litAnn 5 vtInt 2) "2".toList) = true := by decide
+
+/-- Finding F03e: without `cmpSafe` the statement is false of the code — `a < 5000000000UL` (int a) is reported
+    "always true" (checkcondition.cpp:2018 widens the range of a signed 32-bit operand to 0..2^32-1 for any unsigned
+    constant, also a 64-bit one); for a = -1 the comparison is false (a is converted to 2^64-1). -/
+theorem outOfTypeRange_counterexample :
+    ¬ ∀ (S : Sem) (a : Ann) (op : BinOp) (l r : Expr) (b : Bool), op.isCmp = true → annOK S (.bin a op l r) = true →
+        vtOK S l = true → vtOK S r = true → outOfRange op 1 r l = some b →
+        ∀ ρ v, eval S ρ (.bin a op l r) = some v → v = b2i b := by
+  intro h
+  have := h exS (opAnn 3 vtBool) .lt exA (.lit (litAnn 4 vtULong 5000000000) "5000000000UL".toList) true
+    (by decide) (by decide) (by decide) (by decide) (by decide) (fun _ => -1) 0 (by decide)
+  simp [b2i] at this
+
+/-! ### comparison(): bit-and / bit-or against a constant -/
+
+/-- `(X & n1) op n2` : the verdict holds for every bit pattern X -/
+theorem bitand_compare_table_sound (op : BinOp) (uns : Bool) (n1 n2 : Int) (b : Bool)
+    (h : bitCmpVerdict .band op uns n1 n2 = some b) (h2 : 0 ≤ n2) :
+    ∀ p : Nat, cmpZ op ((p &&& n1.toNat : Nat) : Int) n2 = b :=
+  fun p => bitAnd_verdict_sound h h2 p
+
+/-- `(X | n1) op n2`, first operand of the `|` unsigned : the verdict holds for every bit pattern X -/
+theorem bitor_compare_table_sound (op : BinOp) (n1 n2 : Int) (b : Bool)
+    (h : bitCmpVerdict .bor op true n1 n2 = some b) (h2 : 0 ≤ n2) :
+    ∀ p : Nat, cmpZ op ((p ||| n1.toNat : Nat) : Int) n2 = b :=
+  fun p => bitOr_verdict_sound h h2 p
+
+/-- "Expression '(X & n1) op n2' is always b" is true of every evaluation of `(x & n1) op r` / `(n1 & x) op r` when
+    the Known value n2 is on the right and the comparison is exact. -/
+theorem bitand_compare_sound (S : Sem) (a a' an : Ann) (op : BinOp) (x l r : Expr) (sp : List Char) (n1 n2 : Int)
+    (uns b : Bool)
+    (hl : l = .bin a' .band x (.lit an sp) ∨ l = .bin a' .band (.lit an sp) x)
+    (hc : op.isCmp = true) (g : annOK S (.bin a op l r) = true) (hs : cmpSafe S (.bin a op l r) = true)
+    (hk : r.ann.known = some n2) (hn2 : 0 ≤ n2) (hnum : an.num = some n1)
+    (hv : bitCmpVerdict .band op uns n1 n2 = some b) :
+    ∀ ρ v, eval S ρ (.bin a op l r) = some v → v = b2i b :=
+  fun _ _ he => bitand_cmp_sound hl hc g hs hk hn2 hnum hv he
+
+/-- `(a & 1) == 2`-like verdict available under the hypotheses: `(a & 1) > 1` is always false -/
+example : bitCmpVerdict .band .gt false 1 1 = some false ∧
+    annOK exS (.bin (opAnn 5 vtBool) .gt (.bin (opAnn 2 vtInt) .band exA (.lit (litAnn 3 vtInt 1) "1".toList))
+      (.lit (litAnn 6 vtInt 1) "1".toList)) = true ∧
+    cmpSafe exS (.bin (opAnn 5 vtBool) .gt (.bin (opAnn 2 vtInt) .band exA (.lit (litAnn 3 vtInt 1) "1".toList))
+      (.lit (litAnn 6 vtInt 1) "1".toList)) = true := by decide
+
+/-- Finding F03c: `comparison()` swaps the operands when the Known value is on the left without turning the
+    comparator around: for `3 < (a & 1)` the finding computed is the one of `(a & 1) < 3` ("always true"), but the
+    expression in the program is false (here for a = 1; in fact for every a). -/
+theorem bit_compare_swapped_counterexample :
+    ∃ (l r : Expr) (f : Finding), bitCmpFindings .lt l r = [f] ∧ f.msg = "Expression '(X & 0x1) < 0x3' is always true." ∧
+      eval exS (fun _ => 1) (.bin (opAnn 5 vtBool) .lt l r) = some 0 :=
+  ⟨.lit (litAnn 1 vtInt 3) "3".toList, .bin (opAnn 4 vtInt) .band exA (.lit (litAnn 5 vtInt 1) "1".toList), _, rfl,
+   by decide, by decide⟩
+
 end Cppcheck.CondExpr
